@@ -111,16 +111,16 @@ PROPS = {
         "safety": True,
         "units": [gen("C10")],
         "trusted_base": TB_ALGEBRA + ["A-TIME: SystemTime/Duration are integers; now() is arbitrary but not before the epoch; duration_since is Err exactly when the argument is later",
-                                      "BlsSignatureProof::compute_y is NOT verified (mutable sub-slice copies are outside the Verus subset): its contract res == H(enc(u) || le64(t), SALT) is assumed"],
+                                      "L-STD: x[..n].copy_from_slice(y), x[n..].copy_from_slice(y) and u64::to_le_bytes as modelled by E16 (copy_into_prefix / copy_into_suffix / u64_to_le_bytes)"],
         "hypotheses": [X_NONID, "X-LIN: the response point v = -(x'+y)*sig is not the identity (x'+y != 0)", "X-RO: another timestamp gives another derived challenge"],
         "not_decided": ["'rejected once the timeout has elapsed' is proved as: Ok implies the equation for the derived challenge, and the elapsed-time comparison is part of the verified body; the wall clock itself is an arbitrary value"],
     },
     "C11": {
         "units": [leaf("assertion failed: o"), gen("C11", props=["lib_payload.rs", "C11.rs"])],
         "trusted_base": TB_ALGEBRA + ["H-XOF: SHAKE128 is an uninterpreted function of (absorbed input, output length)", "L-ZIGZAG: LEB128 peek/try_from/to_vec facts (prefix, round trip, length <= 19)", "A-RNG (see C20)",
-                                      "byte_xor: contract assumed in the Verus unit (zip iterator), checked by Kani only at N in {0,4} (BOUNDED)"],
+                                      "byte_xor is PROVED for every length by Verus (zip loop invariant); the Kani harnesses at N in {0,4} are a bounded second opinion"],
         "hypotheses": [X_NONID, "X-INJ / X-DSEP on the hash input enc(U)||V for altered U, V or scheme label", "X-RO: a different secret key unmasks with an unrelated keystream"],
-        "bounded_parts": ["byte_xor element-wise contract: Kani at N in {0, 4}"],
+        "bounded_parts": ["Kani second opinion on byte_xor at N in {0, 4} (the unbounded proof is Verus')"],
         "not_decided": ["'decryption under a different secret key never returns the original message' (statistical statement about SHAKE128 output)"],
     },
     "C12": {
@@ -132,17 +132,17 @@ PROPS = {
     "C13": {
         "units": [leaf("assertion failed: o"), gen("C13", props=["lib_payload.rs", "lib_shares.rs", "C13.rs"])],
         "trusted_base": TB_ALGEBRA + ["H-XOF / H-HASH: SHAKE128 and SHA-256 are uninterpreted functions of their input", "L-ZIGZAG (see C11)", "A-RNG (see C20)", "Gt is determined by its discrete log; gt_enc is injective",
-                                      "E3d: a.iter().copied().chain(b.iter().copied()).collect() is modelled as concatenation", "byte_xor: see C11 (Kani, bounded)"],
+                                      "E3d: a.iter().copied().chain(b.iter().copied()).collect() is modelled as concatenation", "byte_xor: proved by Verus (see C11)"],
         "hypotheses": [X_NONID, "X-RO for 'wrong id / wrong key / tampering yields nothing': another pairing value or another masked byte gives an unrelated alpha and check scalar"],
-        "bounded_parts": ["byte_xor element-wise contract: Kani at N in {0, 4}"],
+        "bounded_parts": ["Kani second opinion on byte_xor at N in {0, 4} (the unbounded proof is Verus')"],
         "not_decided": ["that t of n scalar shares recombine to the key (L-LAGRANGE, vsss-rs) is a hypothesis of c13_recombined_signature_opens_like_the_whole_key_signature"],
     },
     "C14": {
         "units": [gen("C14", props=["lib_shares.rs", "C14.rs"])],
         "trusted_base": TB_ALGEBRA + ["H-TRANSCRIPT: the Merlin challenge is an uninterpreted function of the exact (label, message) sequence, the challenge label and the output length", "hash_to_curve into the public-key group (PublicKeyHasher) is uninterpreted",
-                                      "BlsElGamal::seal_scalar_with_proof is NOT verified (closures capturing &mut rng are outside the Verus subset): its contract is assumed", "A-RNG"],
+                                      "E17/E18: opt.unwrap_or_else(|| e) inlined as a match, Scalar::random(&mut g) as random_mut (listed rules; A-RNG)"],
         "hypotheses": ["X-RO on the transcript hash for the binding statements"],
-        "not_decided": ["proof completeness end to end (it needs the unverified prover seal_scalar_with_proof)", "that t of n scalar shares recombine to the key (L-LAGRANGE, vsss-rs) is a hypothesis of c14_key_from_shares_decrypts"],
+        "not_decided": ["the guards of an honest proof (ciphertext components, responses and challenge non-zero) hold except with negligible probability: explicit hypothesis of c14_honest_proof_verifies", "that t of n scalar shares recombine to the key (L-LAGRANGE, vsss-rs) is a hypothesis of c14_key_from_shares_decrypts"],
     },
     "C15": {
         "units": [LEAF_FUNCTIONAL_BOTH, gen("C15", props=["lib_bytes.rs", "C15.rs"])],
@@ -179,7 +179,7 @@ PROPS = {
         "level_text": "Deductive proof (Verus) of the PROVENANCE of every ephemeral value: each randomized entry point computes its ephemeral scalar/mask from bytes drawn in this call from a generator created by ChaCha20Rng::from_entropy() in this call (or from the caller's generator for the *_with_rng forms). The statistical statement (no collision over 4096 calls, threads, processes) is reduced to the assumption that the OS entropy source does not repeat.",
         "trusted_base": TB_ALGEBRA + ["A-RNG: from_entropy() yields an entropy-seeded generator whose seeds never repeat across calls/threads/processes; gen()/Scalar::random return draw(state) and advance the state; from_seed and clones are NOT entropy-seeded"],
         "hypotheses": [],
-        "not_decided": ["freshness across sequences of calls, threads and processes (a property of the OS entropy source and of histories, not of one call)", "SecretKey::split / shamir coefficients and the ElGamal blinders (functions not yet under contract)"],
+        "not_decided": ["freshness across sequences of calls, threads and processes (a property of the OS entropy source and of histories, not of one call)", "SecretKey::split's polynomial coefficients are drawn inside vsss-rs (shamir::split_secret receives the fresh generator; what it does with it is L-VSSS)"],
     },
 }
 
